@@ -350,3 +350,38 @@ Definition elab_prog (setup body : list sstmt) : list stmt * list stmt :=
   let '(s1, d1) := elab false [] setup in
   let '(b1, _) := elab true d1 body in
   (s1, b1).
+
+(* ------------------------------------------------------------------ histories *)
+(* The main loop may guard list statements by run-time conditions (`if g > 1: a.append(5)`):
+   pass k then executes a sub-sequence [bodies_k] of the loop body.  A history is the list
+   of executed statement sequences, one per pass. *)
+Fixpoint run_passes_seq (bodies : list (list stmt)) (st : fstate) : res fstate :=
+  match bodies with
+  | [] => Safe st
+  | b :: r => do a <- run_pass b st; run_passes_seq r (fst a)
+  end.
+
+Definition run_fw_seq (setup : list stmt) (bodies : list (list stmt)) : res fstate :=
+  do a <- run_setup setup; run_passes_seq bodies (fst a).
+
+Fixpoint py_passes_seq (bodies : list (list stmt)) (st : pstate) : pres pstate :=
+  match bodies with
+  | [] => POk st
+  | b :: r => pdo a <- py_pass b st; py_passes_seq r (fst a)
+  end.
+
+Definition run_py_seq (setup : list stmt) (bodies : list (list stmt)) : pres pstate :=
+  pdo a <- py_setup setup; py_passes_seq bodies (fst a).
+
+Definition single_owner_seq (setup : list stmt) (bodies : list (list stmt)) : bool :=
+  match setup_ok [] setup with
+  | Some decl => forallb (forallb (use_ok decl)) bodies
+  | None => false
+  end.
+
+(* `if g > t:` in front of statement k of the body (t = -1 with g >= 0: unconditional) *)
+Fixpoint select (g : Z) (gates : list Z) (body : list stmt) : list stmt :=
+  match gates, body with
+  | t :: gr, s :: br => if (t <? g)%Z then s :: select g gr br else select g gr br
+  | _, _ => []
+  end.
